@@ -6,9 +6,14 @@
 #include "util.h"
 static void in_z(const char *k, mpz_srcptr z) { char *h = hex_of_limbs(PTR(z), ABSIZ(z), SIZ(z) < 0); fn_in_str(k, h); free(h); }
 static void out_z(const char *k, mpz_srcptr z) { char *h = hex_of_limbs(PTR(z), ABSIZ(z), SIZ(z) < 0); fn_out_str(k, h); free(h); }
+/* width / precision codes (PrintfLayout.tla): -1 none, n literal, 1000+n '*' with argument n, 2000+n '*' with argument -n, precision 3000 a bare '.' */
 static void mkfmt(char *fmt, const char *fl, int w, int p, const char *type, char conv) {
-  char *q = fmt; *q++ = '%'; q += sprintf(q, "%s", fl); if (w >= 0) q += sprintf(q, "%d", w); if (p >= 0) q += sprintf(q, ".%d", p); q += sprintf(q, "%s%c", type, conv);
+  char *q = fmt; *q++ = '%'; q += sprintf(q, "%s", fl);
+  if (w >= 1000) *q++ = '*'; else if (w >= 0) q += sprintf(q, "%d", w);
+  if (p == 3000) *q++ = '.'; else if (p >= 1000) { *q++ = '.'; *q++ = '*'; } else if (p >= 0) q += sprintf(q, ".%d", p);
+  q += sprintf(q, "%s%c", type, conv);
 }
+static int star_arg(int code) { return code >= 2000 ? -(code - 2000) : code - 1000; }
 /* the other members of the printf family: each has its own output callbacks (sprintffuns.c, asprntffuns.c, printffuns.c,
    obprntffuns.c, snprntffuns.c) behind the same __gmp_doprnt, and each has a va_list twin */
 #include <obstack.h>
@@ -59,7 +64,17 @@ static void alt_family(const char *fmt, mpz_srcptr v) {
 static long row_no;
 static void one_row(const char *fl, int w, int p, char conv, mpz_srcptr v) {
   char fmt[64], cfmt[64], g[4096], c[4096], cv[2] = {conv, 0}; int ret, havec = mpz_fits_slong_p(v), alt = (row_no++ % 5 == 0);
+  int ws = w >= 1000, ps = p >= 1000 && p != 3000;
   mkfmt(fmt, fl, w, p, "Z", conv); mkfmt(cfmt, fl, w, p, "l", conv);
+  if (ws || ps) {      /* '*' arguments precede the value */
+    int wa = ws ? star_arg(w) : 0, pa = ps ? star_arg(p) : 0; long lv = havec ? mpz_get_si(v) : 0;
+    fn_begin("gmp_printf_z"); fn_in_str("fl", fl); fn_in_int("w", w); fn_in_int("p", p); fn_in_str("conv", cv); in_z("v", v); fn_in_int("havec", havec); fn_mid();
+    c[0] = 0;
+    if (ws && ps) { ret = gmp_snprintf(g, sizeof g, fmt, wa, pa, v); if (havec) snprintf(c, sizeof c, cfmt, wa, pa, lv); }
+    else if (ws) { ret = gmp_snprintf(g, sizeof g, fmt, wa, v); if (havec) snprintf(c, sizeof c, cfmt, wa, lv); }
+    else { ret = gmp_snprintf(g, sizeof g, fmt, pa, v); if (havec) snprintf(c, sizeof c, cfmt, pa, lv); }
+    fn_out_str("g", g); fn_out_str("c", c); fn_out_int("ret", ret); fn_out_raw("alt", "[]"); fn_end();
+    return; }
   if (alt) { priv_begin(); alt_family(fmt, v); priv_end(); }
   fn_begin("gmp_printf_z"); fn_in_str("fl", fl); fn_in_int("w", w); fn_in_int("p", p); fn_in_str("conv", cv); in_z("v", v); fn_in_int("havec", havec); fn_mid();
   ret = gmp_snprintf(g, sizeof g, fmt, v);
@@ -79,7 +94,7 @@ void drv_c18_fmt(int tier, unsigned long seed, const char *extra) {
     cnt++;
     priv_begin(); mpz_set_si(v, val); priv_end(); one_row(fl, w, p, conv, v);
     if (cnt % 4 == 0) { /* the same row on a value beyond any C type: digits of get_str placed by the same rules */
-      priv_begin(); mpz_set_si(big, val ? val : 7); mpz_mul_2exp(big, big, 64 + rnd_below(130)); mpz_add_ui(big, big, rnd64()); priv_end(); one_row(fl, w + (w > 0 ? 30 : 0), p + (p > 0 ? 40 : 0), conv, big); }
+      priv_begin(); mpz_set_si(big, val ? val : 7); mpz_mul_2exp(big, big, 64 + rnd_below(130)); mpz_add_ui(big, big, rnd64()); priv_end(); one_row(fl, w + (w > 0 ? 30 : 0), p + (p > 0 && p != 3000 && !(p >= 2000) ? 40 : 0), conv, big); }
   }
   fclose(f); priv_begin(); mpz_clear(v); mpz_clear(big); priv_end();
 }
